@@ -791,3 +791,64 @@ func (t *Term) String() string {
 	sb.WriteString(")")
 	return sb.String()
 }
+
+// Subst rebuilds t with the variables in bind replaced by constants (re-simplifying on the way).
+// memo must be a map private to the current binding set.
+func (c *Ctx) Subst(t *Term, bind map[*Term]*Term, memo map[*Term]*Term) *Term {
+	if t.Op == OpConst {
+		return t
+	}
+	if r, ok := memo[t]; ok {
+		return r
+	}
+	var r *Term
+	switch t.Op {
+	case OpVar:
+		if b, ok := bind[t]; ok {
+			r = b
+		} else {
+			r = t
+		}
+	default:
+		args := make([]*Term, len(t.Args))
+		changed := false
+		for i, a := range t.Args {
+			args[i] = c.Subst(a, bind, memo)
+			if args[i] != a {
+				changed = true
+			}
+		}
+		if !changed {
+			r = t
+			break
+		}
+		switch t.Op {
+		case OpNot:
+			r = c.Not(args[0])
+		case OpAnd:
+			r = c.And(args[0], args[1])
+		case OpOr:
+			r = c.Or(args[0], args[1])
+		case OpEq:
+			r = c.Eq(args[0], args[1])
+		case OpIte:
+			r = c.Ite(args[0], args[1], args[2])
+		case OpBNot:
+			r = c.BNot(args[0])
+		case OpNeg:
+			r = c.Neg(args[0])
+		case OpExtract:
+			r = c.Extract(args[0], t.P1, t.P2)
+		case OpZext:
+			r = c.Zext(args[0], t.Sort)
+		case OpSext:
+			r = c.Sext(args[0], t.Sort)
+		case OpConcat:
+			r = c.Concat(args[0], args[1])
+		default:
+			r = c.Bin(t.Op, args[0], args[1])
+		}
+	}
+	memo[t] = r
+	return r
+}
